@@ -104,8 +104,11 @@ func wlHashTables(inst int) string {
 			sort.Strings(kv)
 			out = append(out, fmt.Sprintf("t%d:%d:%s", ti, t.Size(), strings.Join(kv, ",")))
 		}
-		c := t.SelectMatch(func(k int, _ string) bool { return k%2 == 0 })
-		out = append(out, fmt.Sprintf("even=%d eq=%v", c.Size(), t.Equal(t)))
+		evn := func(k int, _ string) bool { return k%2 == 0 }
+		c := t.SelectMatch(evn)
+		pa, pb := t.PartitionMatch(evn)
+		g, gok := t.Get(7)
+		out = append(out, fmt.Sprintf("even=%d eq=%v", c.Size(), t.Equal(t)), fmt.Sprint(t.AnyMatch(evn), t.AllMatch(evn), pa.Size(), pb.Size(), g, gok, t.IsEmpty()))
 		_ = t.String()
 	}
 	for ti, t := range strs {
@@ -147,6 +150,26 @@ func wlOrderedTables(inst int) string {
 		mn, _, _ := t.Min()
 		mx, _, _ := t.Max()
 		out = append(out, fmt.Sprintf("o%d:%d:%d:%d:%d:%s", ti, t.Size(), mn, mx, t.Rank(150), strings.Join(ks, ",")))
+		// every query family
+		fl, _, fok := t.Floor(150)
+		ce, _, cok := t.Ceiling(150)
+		se, _, sok := t.Select(t.Size() / 2)
+		g, gok := t.Get(mn)
+		out = append(out, fmt.Sprint(fl, fok, ce, cok, se, sok, g, gok, t.Height() > 0, t.RangeSize(50, 200), len(t.Range(50, 200)), t.IsEmpty()))
+		even := func(k int, _ string) bool { return k%2 == 0 }
+		sel := t.SelectMatch(even)
+		pa, pb := t.PartitionMatch(even)
+		fk, _, fmok := t.FirstMatch(func(k int, _ string) bool { return k == mx })
+		out = append(out, fmt.Sprint(t.AnyMatch(even), t.AllMatch(even), sel.Size(), pa.Size(), pb.Size(), fk, fmok))
+		var tr []string
+		for _, o := range []generic.TraverseOrder{generic.VLR, generic.LVR, generic.LRV, generic.Ascending, generic.Descending} {
+			n := 0
+			t.Traverse(o, func(k int, _ string) bool { tr = append(tr, fmt.Sprint(k)); n++; return n < 12 })
+		}
+		out = append(out, strings.Join(tr, ","), fmt.Sprint(t.Equal(t), len(t.String()) > 0, len(t.DOT()) > 0))
+		dk, _, _ := t.DeleteMin()
+		dx, _, _ := t.DeleteMax()
+		out = append(out, fmt.Sprint(dk, dx, t.Size()))
 	}
 	return dig(out...)
 }
@@ -184,6 +207,22 @@ func wlSets(inst int) string {
 		}
 		sort.Strings(ps)
 		out = append(out, strings.Join(ps, ";"))
+		var parts []string
+		for part := range set.Partitions(m(1+inst, 2+inst, 3+inst, 4+inst)).All() {
+			var blocks []string
+			for blk := range part.All() {
+				blocks = append(blocks, canon(blk))
+			}
+			sort.Strings(blocks)
+			parts = append(parts, strings.Join(blocks, "|"))
+		}
+		sort.Strings(parts)
+		out = append(out, strings.Join(parts, ";"))
+		odd := func(x int) bool { return x%2 == 1 }
+		sa, sb := a.PartitionMatch(odd)
+		out = append(out, fmt.Sprint(a.AnyMatch(odd), a.AllMatch(odd), a.SelectMatch(odd).Size(), sa.Size(), sb.Size(), a.Contains(5+inst, 7+inst), a.CloneEmpty().Size()))
+		a.Remove(5+inst, 6+inst)
+		out = append(out, canon(a))
 		_ = a.String()
 	}
 	return dig(out...)
@@ -195,6 +234,14 @@ func wlTries(inst int) string {
 	r := &sm{s: uint64(4000 + inst)}
 	eq := generic.NewEqualFunc[int]()
 	ts := []trie.Trie[int]{trie.NewBinary[int](eq), trie.NewPatricia[int](eq)}
+	kvs := func(xs []generic.KeyValue[string, int]) string {
+		var o []string
+		for _, kv := range xs {
+			o = append(o, fmt.Sprintf("%s=%d", kv.Key, kv.Val))
+		}
+		sort.Strings(o)
+		return strings.Join(o, ",")
+	}
 	var out []string
 	for ti, t := range ts {
 		for i := 0; i < 80; i++ {
@@ -216,8 +263,37 @@ func wlTries(inst int) string {
 		sort.Strings(kv)
 		mn, _, _ := t.Min()
 		mx, _, _ := t.Max()
-		_, g, ok := func() (string, int, bool) { v, ok := t.Get("ab"); return "", v, ok }()
+		g, ok := t.Get("ab")
 		out = append(out, fmt.Sprintf("tr%d:%d:%s:%s:%d:%v:%d:%s", ti, t.Size(), mn, mx, g, ok, t.Height(), strings.Join(kv, ",")))
+		// every query family (several calls each: a package-level scratch buffer would be reset and refilled)
+		for _, pat := range []string{"a*", "*b", "a*c", "**", "b**d", "abcd", "*"} {
+			out = append(out, "m:"+kvs(t.Match(pat)))
+		}
+		for _, pre := range []string{"a", "ab", "b", "ca", "dd", "abc"} {
+			out = append(out, "p:"+kvs(t.WithPrefix(pre)))
+			lk, lv, lok := t.LongestPrefixOf(pre + "bcd")
+			fk, _, fok := t.Floor(pre)
+			ck, _, cok := t.Ceiling(pre)
+			out = append(out, fmt.Sprint(lk, lv, lok, fk, fok, ck, cok, t.Rank(pre), t.RangeSize(pre, "cc"), kvs(t.Range(pre, "cc"))))
+		}
+		for i := 0; i < t.Size(); i += 5 {
+			sk, sv, sok := t.Select(i)
+			out = append(out, fmt.Sprint(sk, sv, sok))
+		}
+		short := func(k string, _ int) bool { return len(k) <= 2 }
+		sel := t.SelectMatch(short)
+		pa, pb := t.PartitionMatch(short)
+		fk, _, fok := t.FirstMatch(func(k string, _ int) bool { return k == mx })
+		out = append(out, fmt.Sprint(t.AnyMatch(short), t.AllMatch(short), sel.Size(), pa.Size(), pb.Size(), fk, fok, t.Equal(t), len(t.String()) > 0, len(t.DOT()) > 0))
+		var tr []string
+		for _, o := range []generic.TraverseOrder{generic.VLR, generic.LVR, generic.LRV, generic.Ascending, generic.Descending} {
+			n := 0
+			t.Traverse(o, func(k string, _ int) bool { tr = append(tr, k); n++; return n < 10 })
+		}
+		out = append(out, strings.Join(tr, ","))
+		d1, _, _ := t.DeleteMin()
+		d2, _, _ := t.DeleteMax()
+		out = append(out, fmt.Sprint(d1, d2, t.Size()))
 	}
 	return dig(out...)
 }
@@ -241,11 +317,32 @@ func wlHeaps(inst int) string {
 				seq = append(seq, fmt.Sprintf("%d%v", k, ok))
 			}
 		}
+		pk, _, pok := h.Peek()
+		seq = append(seq, fmt.Sprint(pk, pok, h.ContainsKey(pk), h.ContainsKey(-1), h.ContainsValue(fmt.Sprint(inst)), h.ContainsValue("zz"), h.Size(), len(h.DOT()) > 0))
 		for !h.IsEmpty() {
 			k, _, _ := h.Delete()
 			seq = append(seq, fmt.Sprint(k))
 		}
 		out = append(out, fmt.Sprintf("h%d:%s", hi, strings.Join(seq, ",")))
+	}
+	for mi, mk := range []func() heap.MergeableHeap[int, string]{
+		func() heap.MergeableHeap[int, string] { return heap.NewBinomial[int, string](cmp, eq) },
+		func() heap.MergeableHeap[int, string] { return heap.NewFibonacci[int, string](cmp, eq) },
+	} {
+		a, b := mk(), mk()
+		for i := 0; i < 40; i++ {
+			a.Insert(r.intn(500), "a")
+			b.Insert(r.intn(500), "b")
+		}
+		a.Delete()
+		a.Merge(b)
+		var seq []string
+		for !a.IsEmpty() {
+			k, v, _ := a.Delete()
+			seq = append(seq, fmt.Sprint(k, v[:1]))
+		}
+		sort.Strings(seq)
+		out = append(out, fmt.Sprintf("mg%d:%s", mi, strings.Join(seq, ",")))
 	}
 	ih := []heap.IndexedHeap[int, string]{
 		heap.NewIndexedBinary[int, string](64, cmp, eq),
@@ -260,6 +357,10 @@ func wlHeaps(inst int) string {
 		for i := 0; i < 20; i++ {
 			h.ChangeKey(r.intn(64), r.intn(1000))
 		}
+		pi, pk, _, pok := h.Peek()
+		ik, _, iok := h.PeekIndex(7)
+		dk, _, dok := h.DeleteIndex(9)
+		seq = append(seq, fmt.Sprint(pi, pk, pok, ik, iok, dk, dok, h.ContainsIndex(9), h.ContainsIndex(10), h.ContainsKey(pk), h.ContainsValue(fmt.Sprint(inst)), h.ContainsValue("zz"), h.Size(), len(h.DOT()) > 0))
 		for !h.IsEmpty() {
 			i, k, _, _ := h.Delete()
 			seq = append(seq, fmt.Sprintf("%d", k))
@@ -295,6 +396,43 @@ func wlSorts(inst int) string {
 	}
 	radixsort.LSDInt(ints)
 	out = append(out, fmt.Sprint(ss), fmt.Sprint(s2), fmt.Sprint(ints))
+	fixed := make([]string, 100)
+	for i := range fixed {
+		fixed[i] = fmt.Sprintf("%04d", r.intn(9999))
+	}
+	radixsort.LSDString(fixed, 4)
+	i2 := make([]int, 150)
+	u1, u2 := make([]uint, 150), make([]uint, 150)
+	for i := range i2 {
+		i2[i] = r.intn(1<<40) - 1<<39
+		u1[i] = uint(r.u64())
+		u2[i] = uint(r.u64() >> 20)
+	}
+	radixsort.MSDInt(i2)
+	radixsort.LSDUint(u1)
+	radixsort.MSDUint(u2)
+	out = append(out, fmt.Sprint(fixed), fmt.Sprint(i2), fmt.Sprint(u1), fmt.Sprint(u2))
+	for _, f := range []func([]int, generic.CompareFunc[int]){algosort.MergeRec[int], algosort.Insertion[int], algosort.Selection[int]} {
+		a := make([]int, 120)
+		for i := range a {
+			a[i] = r.intn(500)
+		}
+		f(a, cmp)
+		out = append(out, fmt.Sprint(a))
+	}
+	sel := make([]int, 99)
+	for i := range sel {
+		sel[i] = r.intn(1000)
+	}
+	out = append(out, fmt.Sprint(algosort.Select(sel, 49, cmp)))
+	for _, mk := range []func(int) unionfind.UnionFind{unionfind.NewQuickFind, unionfind.NewQuickUnion} {
+		u := mk(40)
+		for i := 0; i < 30; i++ {
+			u.Union(r.intn(40), r.intn(40))
+		}
+		f, _ := u.Find(7)
+		out = append(out, fmt.Sprint(u.Count(), u.IsConnected(1, 2), f >= 0))
+	}
 	uf := unionfind.NewWeightedQuickUnion(50)
 	for i := 0; i < 40; i++ {
 		uf.Union(r.intn(50), r.intn(50))
@@ -421,6 +559,9 @@ func wlTransforms(inst int) string {
 			prodsCanon(g.EliminateLeftRecursion()),
 			prodsCanon(g.LeftFactor()),
 			prodsCanon(g.ChomskyNormalForm()),
+			prodsCanon(g.EliminateCycles()),
+			fmt.Sprint(g.OrderTerminals()), fmt.Sprint(g.OrderNonTerminals()), fmt.Sprint(g.IsCNF() == nil, g.ChomskyNormalForm().IsCNF() == nil),
+			fmt.Sprint(g.Symbols().Size(), len(g.String()) > 0),
 			fmt.Sprint(orig == prodsCanon(g), g.Equal(g.Clone())))
 	}
 	return dig(out...)
@@ -447,6 +588,13 @@ func wlPredictive(inst int) string {
 			for _, in := range spec.input {
 				p := predictive.New(buildGrammar(spec, inst+gi), newSliceLexer(in))
 				out = append(out, parseDigest(p.Parse))
+				out = append(out, guarded(func() string {
+					node, err := predictive.New(buildGrammar(spec, inst+gi), newSliceLexer(in)).ParseAndBuildAST()
+					if err != nil {
+						return "ast-reject"
+					}
+					return node.String()
+				}))
 			}
 		}
 	}
@@ -472,6 +620,24 @@ func lrWorkload(specs []int, build tableBuilder, newParser func(lexer.Lexer, *gr
 						continue
 					}
 					out = append(out, parseDigest(p.Parse))
+					if p2, e2 := newParser(newSliceLexer(in), buildGrammar(spec, inst+gi), lr.PrecedenceLevels{}); e2 == nil {
+						out = append(out, guarded(func() string {
+							node, err := p2.ParseAndBuildAST()
+							if err != nil {
+								return "ast-reject"
+							}
+							return node.String()
+						}))
+					}
+					if p3, e3 := newParser(newSliceLexer(in), buildGrammar(spec, inst+gi), lr.PrecedenceLevels{}); e3 == nil {
+						out = append(out, guarded(func() string {
+							v, err := p3.ParseAndEvaluate(func(pr *grammar.Production, vs []*lr.Value) (any, error) { return len(vs) + len(pr.Body), nil })
+							if err != nil {
+								return "eval-reject"
+							}
+							return fmt.Sprint(v.Val)
+						}))
+					}
 				}
 			}
 		}
@@ -556,7 +722,37 @@ func wlAutomata(inst int) string {
 	d2.Add(3, 'a', 1)
 	d2.Add(3, 'b', 0)
 	out = append(out, fmt.Sprint(d2.Minimize().ReindexStates().String()), fmt.Sprint(d2.Equal(d2.Clone())))
+	out = append(out, guarded(func() string {
+		m2 := d2.Minimize().ReindexStates()
+		return fmt.Sprint(m.Isomorphic(m2), m2.Isomorphic(m2.Clone()), n2.Isomorphic(n2.Clone()))
+	}))
+	out = append(out, guarded(func() string {
+		c, fin := automata.CombineDFA(m, d2)
+		return c.String() + fmt.Sprint(fin, c.Accept(toSyms("abb")), c.Accept(toSyms("ba")))
+	}))
+	out = append(out, guarded(func() string {
+		cc := n.Concat(n2)
+		return fmt.Sprint(cc.Accept(toSyms("abbabb")), cc.Accept(toSyms("abb")), len(cc.States()), len(cc.Symbols()))
+	}))
+	nt, dt := 0, 0
+	for range n.Transitions() {
+		nt++
+	}
+	for range d.Transitions() {
+		dt++
+	}
+	out = append(out, fmt.Sprint(nt, dt, n.Next(0, automata.E), d.Next(0, 'a'), len(n.DOT()) > 0, len(m.DOT()) > 0, n.Equal(n.Clone()), len(n.String()) > 0))
 	return dig(out...)
+}
+
+// guarded turns a panic of one query into a (deterministic) result instead of losing the rest of the digest
+func guarded(f func() string) (res string) {
+	defer func() {
+		if r := recover(); r != nil {
+			res = "PANIC:" + strings.SplitN(fmt.Sprint(r), "\n", 2)[0]
+		}
+	}()
+	return f()
 }
 
 func toSyms(s string) automata.String {
@@ -664,6 +860,30 @@ func wlMisc(inst int) string {
 		o := dg.Orders(s)
 		out = append(out, fmt.Sprint(p), fmt.Sprint(o.PreOrder(), o.PostOrder()))
 	}
+	wu, wd := graph.NewWeightedUndirected(n), graph.NewWeightedDirected(n)
+	for i := 0; i < 3*n; i++ {
+		v, w := r.intn(n), r.intn(n)
+		if v != w {
+			wu.AddEdge(graph.VerifUndirectedEdge(v, w, float64(1+r.intn(50))))
+			wd.AddEdge(graph.VerifDirectedEdge(v, w, float64(1+r.intn(50))))
+		}
+	}
+	out = append(out, guarded(func() string {
+		mst := wu.MinimumSpanningTree()
+		spt := wd.ShortestPathTree(0)
+		pth, dist, pok := spt.PathTo(n - 1)
+		cyc, cok := dg.DirectedCycle().Cycle()
+		rk, rok := dg.Topological().Rank(n / 2)
+		return fmt.Sprint(mst.Weight(), len(mst.Edges()), len(pth), dist, pok, cyc, cok, rk, rok,
+			wu.ConnectedComponents().Components(), wd.StronglyConnectedComponents().Components(),
+			wd.Reverse().E(), dg.Reverse().E(), len(wu.Edges()), len(wd.Edges()), wu.Degree(1), wd.InDegree(1), wd.OutDegree(1),
+			ug.Degree(2), dg.InDegree(2), dg.OutDegree(2), len(wu.DOT()) > 0, len(wd.DOT()) > 0, len(dg.DOT()) > 0)
+	}))
+	for _, st := range []graph.TraversalStrategy{graph.DFS, graph.DFSi, graph.BFS} {
+		p1, _ := wu.Paths(0, st).To(n - 1)
+		p2, _ := wd.Paths(0, st).To(n - 1)
+		out = append(out, fmt.Sprint(p1, p2, wu.Orders(st).ReversePostOrder(), wd.Orders(st).PreOrder(), ug.Orders(st).PostOrder()))
+	}
 	to, ok := dg.Topological().Order()
 	out = append(out, fmt.Sprint(ug.ConnectedComponents().Components()), fmt.Sprint(dg.StronglyConnectedComponents().Components()), fmt.Sprint(to, ok), ug.DOT())
 	src := strings.Repeat(fmt.Sprintf("héllo-%d wörld ", inst), 40)
@@ -677,8 +897,16 @@ func wlMisc(inst int) string {
 			}
 			rs = append(rs, c)
 			if k%17 == 16 {
-				lx, _ := in.Lexeme()
-				out = append(out, lx)
+				lx, pos := in.Lexeme()
+				out = append(out, lx, pos.String())
+			}
+			if k%29 == 28 {
+				in.Retract()
+				c2, _ := in.Next()
+				out = append(out, string(c2))
+			}
+			if k%41 == 40 {
+				out = append(out, in.Skip().String())
 			}
 		}
 		out = append(out, string(rs))
